@@ -219,6 +219,62 @@ theorem C04_recorded_steps_obey_recurrences (rnd : α → α) (fdiv : α → α 
       exact List.mem_append_left _ (List.mem_append_left _ hx)
     exact hc.sched x hmem
 
+/-- **Steps of one node never overlap, and never start before their schedule, under every schedule** (machine level): reading the
+recorded steps of a node in order, each step starts no earlier than its predecessor ended (`start + computation delay`); and unless the
+node ignores its schedule (`advance` with only blocking inputs), no step starts before its scheduled time plus the accumulated shift. -/
+theorem C04_recorded_steps_do_not_overlap (rnd : α → α) (fdiv : α → α → Int) :
+    letI := fieldTime α rnd fdiv
+    ∀ (cfg : Rex.Async.Cfg α) (n : Nat) (nc : Rex.Async.NodeCfg α), cfg.node n = some nc →
+    ∀ (σ : List Rex.Async.Rule) (s : Rex.Async.MSt α),
+      Rex.Conf.Run (Rex.Async.machine cfg).toNet.sys (Rex.Async.initState cfg) σ s →
+    (∀ i a b, (Rex.Async.recLine (s.q (.node n .record)))[i]? = some a →
+        (Rex.Async.recLine (s.q (.node n .record)))[i + 1]? = some b → a.tsStart + a.delay ≤ b.tsStart) ∧
+    (only_blocking nc.advance (nc.inputs.all cfg.blocking) = false →
+      ∀ x ∈ Rex.Async.recLine (s.q (.node n .record)), x.hdr.tsScheduled + x.hdr.phaseScheduled ≤ x.tsStart) := by
+  letI := fieldTime α rnd fdiv
+  intro cfg n nc hnode σ s hrun
+  have hrec := C04_recorded_steps_obey_recurrences (α := α) rnd fdiv cfg n nc hnode σ s hrun
+  have hlaw := C04_recorded_steps_obey_start_law (α := α) rnd fdiv cfg n nc hnode σ s hrun
+  refine ⟨?_, ?_⟩
+  · intro i a b ha hb
+    obtain ⟨hprev, _⟩ := hrec.2.1 i a b ha hb
+    obtain ⟨r, hm, he⟩ := Rex.Async.mem_recLine_stepRec _ b (List.mem_of_getElem? hb)
+    have hs := (hlaw r hm).1
+    subst he
+    simp only at hprev ⊢
+    rw [hs, ← hprev]
+    split
+    · exact le_max_right _ _
+    · exact le_trans (le_max_right _ _) (le_max_left _ _)
+  · intro hob x hx
+    obtain ⟨r, hm, he⟩ := Rex.Async.mem_recLine_stepRec _ x hx
+    have hs := (hlaw r hm).1
+    subst he
+    simp only at ⊢
+    rw [hs, hob]
+    simp only [Bool.false_eq_true, if_false]
+    exact le_max_right _ _
+
+/-- **The accumulated schedule shift never decreases under FREQUENCY scheduling and is never negative** (machine level). -/
+theorem C04_shift_monotone (rnd : α → α) (fdiv : α → α → Int) :
+    letI := fieldTime α rnd fdiv
+    ∀ (cfg : Rex.Async.Cfg α) (n : Nat) (nc : Rex.Async.NodeCfg α), cfg.node n = some nc →
+    ∀ (σ : List Rex.Async.Rule) (s : Rex.Async.MSt α),
+      Rex.Conf.Run (Rex.Async.machine cfg).toNet.sys (Rex.Async.initState cfg) σ s →
+    ∀ i a b, (Rex.Async.recLine (s.q (.node n .record)))[i]? = some a →
+        (Rex.Async.recLine (s.q (.node n .record)))[i + 1]? = some b →
+        (nc.scheduling = 0 → a.hdr.phaseScheduled ≤ b.hdr.phaseScheduled) ∧ (nc.scheduling ≠ 0 → b.hdr.phaseScheduled = 0) := by
+  letI := fieldTime α rnd fdiv
+  intro cfg n nc hnode σ s hrun i a b ha hb
+  have hrec := C04_recorded_steps_obey_recurrences (α := α) rnd fdiv cfg n nc hnode σ s hrun
+  obtain ⟨_, hd⟩ := hrec.2.1 i a b ha hb
+  refine ⟨?_, ?_⟩
+  · intro h0
+    rw [hd]; simp only [h0, if_true]
+    exact le_add_of_nonneg_right (le_max_left _ _)
+  · intro h0
+    rw [hd]; simp only [h0, if_false]
+
 -- non-vacuity of the hypotheses used above
 example : (0 : ℚ) ≤ 1 / 10 ∧ ((3 : ℚ) / 100 ≤ max (1 / 10 + 0) (2 / 100)) := by
   refine ⟨by norm_num, ?_⟩
